@@ -445,7 +445,8 @@ class NumpyConverter(object):
     def write_headers(header_info, out_filehandle):
         for header_array in header_info.headers_dict.values():
             # Pad to 512-bytes for page blobs
-            header_array_bytes = header_array.tobytes()
+            # Readers expect 32-bit integers, whatever integer type the caller's array has
+            header_array_bytes = header_array.astype(np.int32).tobytes()
             out_filehandle.write(header_array_bytes + bytes(-len(header_array_bytes) % 512))
 
     @staticmethod
